@@ -1,4 +1,5 @@
 import Rangers.Model.Round
+import Rangers.Model.RoundFacts
 import Rangers.Generated.C15Facts
 /-!
 C15, T-gen obligations: the statement sequences the translator `gen/cmd/c15facts` re-reads from the
@@ -37,6 +38,23 @@ theorem path_is_stateless_and_fork_independent :
 /-- `loadOrNewSignParty` parks a verify message that has no party yet by appending it to the list under
 its key: the parked store is a multiset per key, exactly `Life.pfuture` / `Proc.stray` of the model. -/
 theorem loadParty_shape : C15Facts.loadPartySteps = expectedLoadPartySteps := by decide
+
+/-- `baseParty.Update`, `StoreMessage`, the three `CanAccept`s, `round1.NextRound`, `OnMessageVerify` and
+`waitUntilDone` (closure `fn`, the 10-second timer, the changeId step) consist of exactly the statements
+`partyUpdate` / `advance` / `storeRule` / `canAccept1` / `Proc.onVerify` / `settle` / `Life.onTimeout` /
+`Life.enterSigning` transcribe. -/
+theorem handlers_canon :
+    C15Facts.partyUpdateCanon = expectedPartyUpdateCanon ∧
+    C15Facts.storeMessageCanon = expectedStoreMessageCanon ∧
+    C15Facts.canAccept0Canon = expectedCanAccept0Canon ∧
+    C15Facts.canAccept1Canon = expectedCanAccept1Canon ∧
+    C15Facts.canAccept2Canon = expectedCanAccept2Canon ∧
+    C15Facts.nextRound1Canon = expectedNextRound1Canon ∧
+    C15Facts.onMessageVerifyCanon = expectedOnMessageVerifyCanon ∧
+    C15Facts.waitUntilDoneCanon = expectedWaitUntilDoneCanon := by decide +kernel
+
+/-- The capacities of the processor's two LRU caches are the ones the model (`futureCap`) and the hook use. -/
+theorem lru_capacities : C15Facts.futureCap = futureCap ∧ C15Facts.finishedCap = finishedCap := by decide
 
 /-- `SignInfo.VerifySign` = signer id non-zero ∧ `VerifySig(pk, dataHash, signature)`. -/
 theorem verifySign_shape : C15Facts.verifySignSteps = expectedVerifySignSteps := by decide
